@@ -22,7 +22,7 @@ CHECKS = {
         category='other',
         text='(a) real compute_residual on symbolic node values: reported residual == configured norm of the collocation defect (validity queries, all sweepers x 4 residual types); '
              '(c) real check_convergence on symbolic iter/maxiter/sweep/residual/restol/flags: all paths enumerated, each equal to the stopping rule, coverage certified (unbounded integers/reals, single call); '
-             '(d) real controller explored over all residual sequences within NP<=3(4), K<=3(4): budget, logged niter, no finish without a sweep unless budget/forced; '
+             '(d) real controller explored over all residual sequences within NP<=3(4), K<=3(4): budget, logged niter, no finish without a sweep unless budget/forced, no finish with a last checked residual above restol before the budget; non-finite residuals (nan, inf) as an enumerated table; defect on LOBATTO / RADAU-LEFT / GAUSS nodes and on a coarse level (mass-matrix sweeper); '
              '(b) whole runs on symbolic initial values: recorded residual is the defect of the values held at that moment.',
         note='Trusted: z3, stub linear problems, probe sweeper (real generic_implicit, symbolic reported residual). Known finding: iteration-0 convergence without a sweep (known_findings.json).',
         design='4/C03', technique='symbolic execution of real code + SMT validity queries; bounded path exploration with coverage certificate',
@@ -31,7 +31,7 @@ CHECKS = {
         category='model_checking',
         text='Bounded model checking of the real controller_nonMPI by symbolic execution: residuals per (step, iteration) are free reals, maxiter a free integer in 0..Kmax, '
              'force flags free booleans; the real convergence test forks, the solver prunes infeasible branches, every feasible path is executed and the safety clauses are asserted on the '
-             'real objects (finish order, finished steps untouched, one stage for all running steps, tag / value / level of every receive, callback grammar); a final SMT query certifies that the explored paths cover all inputs. Bounds: quick NP<=3, levels<=3, Kmax<=3; thorough NP<=4, levels<=3, Kmax<=4, nsweeps<=2 (large configurations explored in parts, one per feasible prefix of the first 18 decisions).',
+             'real objects (finish order, finished steps untouched, one stage for all running steps, tag / value / level of every receive, the last step of a block publishes nothing, callback grammar), blocks with as many steps as processes and with fewer; a final SMT query certifies that the explored paths cover all inputs. Bounds: quick NP<=3, levels<=3, Kmax<=3; thorough NP<=4, levels<=3, Kmax<=4, nsweeps<=2 (large configurations explored in parts, one per feasible prefix of the first 18 decisions).',
         note='Trusted: z3 feasibility answers; probe sweeper. Outside: NP>4, MPI controller, iteration estimator; single block per run.',
         design='4/C07', technique='symbolic path exploration of the real controller with SMT feasibility pruning and coverage certificate',
     ),
@@ -81,7 +81,7 @@ CHECKS = {
         category='other',
         text='The real predictor, K sweeps and end point are executed with the problem coefficient z symbolic: the step function R_K(z) of the real code is a z3 term. (i) SMT validity (QF_NRA): R_K(z) equals the '
              'algebraic recursion / Butcher-tableau stability function for all z (SDC implicit/explicit/IMEX, all 26 RK classes); the collocation solution is a fixed point of the real sweep. '
-             '(ii) exact Taylor coefficients of that term (power series over rationals): c_j = 1/j! for j <= min(K,p), embedded pairs differ at order >= update order, IMEX along 7 rays. (iii) solver cross-check in the thorough tier.',
+             'a second Runge-Kutta step with another step size on the same sweeper object; sweep-index dependent preconditioners (per-sweep tables). (ii) exact Taylor coefficients of that term (power series over rationals): c_j = 1/j! for j <= min(K,p), embedded pairs differ at order >= update order, IMEX along 7 rays. (iii) solver cross-check in the thorough tier.',
         note='Trusted: z3; qmat for the order p of the rules / RK schemes; tolerance 1e-12 on coefficients (float tables). (ii) is exact symbolic computation on the solver-validated term, not a solver verdict. Outside: M>5, K>7, nonlinear order conditions.',
         design='4/C04', technique='symbolic execution of the real sweepers with symbolic z + SMT (QF_NRA) identity; exact power-series extraction from the resulting term',
     ),
@@ -105,7 +105,7 @@ CHECKS = {
     'C19': dict(
         category='other',
         text='The real controller runs on a symbolic initial value; two runs are bit-identical for EVERY input iff their result terms and all statistics values are structurally identical z3 terms. Scenarios: fresh controller twice, '
-             'same controller two and three times, a differently configured controller (extra status variables, hooks) run in between, split at every block boundary (statistics of the halves merged); configurations include increment-based stopping (extra level status variables), a user hook with an extended entry class, a sweep-index dependent preconditioner with several sweeps, the shipped NewtonInexactness controller with a tolerance-dependent solver, an explicit dt_initial, several controllers built from one shared parameter dictionary. Non-identical pairs are '
+             'same controller two and three times, runs of different lengths on one controller with a post-run hook, the configuration alone in a fresh interpreter vs after differently configured controllers with the same sizes (concrete), a differently configured controller (extra status variables, hooks) run in between, split at every block boundary (statistics of the halves merged); configurations include increment-based stopping (extra level status variables), a user hook with an extended entry class, a sweep-index dependent preconditioner with several sweeps, the shipped NewtonInexactness controller with a tolerance-dependent solver, an explicit dt_initial, several controllers built from one shared parameter dictionary. Non-identical pairs are '
              'decided over the reals by the solver and replayed on real floats.',
         note='Trusted: structural identity of terms implies bit-equal floats. Known finding: initial_guess=random (hidden RNG state). Outside: MPI, adaptive step sizes, timings.',
         design='4/C19', technique='symbolic execution of whole real runs; syntactic term identity, SMT equality over the reals as fallback',
@@ -128,13 +128,13 @@ CHECKS = {
     'C15': dict(
         category='other',
         text='Reduced scope: (i) real QDiagonalization.update_nodes on complex symbolic u0 solves the collocation system (SMT, 1e-9); (ii) helper tables: iFFT FFT = I and W E_alpha W^-1 = diag of the factors that get_G_inv_matrix really uses, for every complex vector '
-             '(n_steps<=6(8), alpha in {1,1e-2,1e-8(,...)}); (iii) one real it_ParaDiag iteration of controller_ParaDiag_nonMPI on arbitrary symbolic iterates equals the alpha-circulant preconditioned all-at-once iteration defined inside the query; the sequential collocation solution is its fixed point.',
+             '(n_steps<=6(8), alpha in {1,1e-2,1e-8(,...)}); (iii) one real it_ParaDiag iteration of controller_ParaDiag_nonMPI on arbitrary symbolic iterates equals the alpha-circulant preconditioned all-at-once iteration defined inside the query; the sequential collocation solution is its fixed point; the same after the controller was switched to another alpha; (iv) the data-level transforms FFT_in_time / iFFT_in_time of the controller on symbolic COMPLEX step data are inverse to each other.',
         note='Trusted: z3; alpha enumerated; tolerances scale with cond(J). Outside: symbolic alpha, n_steps>8, nonlinear problems, converged multi-block runs. Known finding: alpha = 1 is singular.',
         design='4/C15', technique='symbolic execution of the real ParaDiag sweeper/controller on complex z3 terms + SMT (QF_LRA); tables as exact rationals',
     ),
     'C17': dict(
         category='other',
-        text='Weak fit, reduced scope: operator matrices of ChebychevHelper / UltrasphericalHelper / FFTHelper (differentiation p<=3, integration, basis conversions and inverses, Dirichlet/Neumann/integral rows, integration weights, Kronecker expansion) for N=2..8(16), '
+        text='Weak fit, reduced scope: operator matrices of ChebychevHelper / UltrasphericalHelper / FFTHelper (differentiation p<=3, integration, basis conversions and inverses, Dirichlet/Neumann/integral rows, integration weights, Kronecker expansion of differentiation and of basis conversions on every axis subset, boundary rows of the ultraspherical helper, conversions / normalisation requested with explicit sizes on one long-lived helper) for N=2..8(16), '
              'reference and mapped intervals: per operator one SMT query over all coefficient vectors in the unit box against exact polynomial calculus in the monomial basis (T_n, U_n, Gegenbauer by exact recurrences - not the implementation formulas). Transforms: the matrices of the real transform / itransform (read off by unit vectors) are inverse to each other and map grid values of a Chebyshev series to its coefficients (solver, all data); Fourier synthesis = modes.',
         note='Trusted: z3; tolerance 1e-10 scaled. NOT claimed: multi-dimensional / padded transforms, N>16. Fourier operators: analytic wavenumbers (float pi) plus formula-free inverse and covariance relations. Known finding: N = 1 raises.',
         design='4/C17', technique='tables from the real code as exact rationals + SMT (QF_LRA) against exact monomial-basis calculus',
